@@ -352,7 +352,7 @@ class C04:
     excl = {'D12b': 0, 'D59': 0}
 
     def budget(self, tier):
-        return 380 if tier == 'quick' else 9000
+        return 380 if tier == 'quick' else 4500
 
     def example(self, ch, ctx):
         depth = 2 if ctx.quick else 3
